@@ -164,7 +164,7 @@ def views(src, o, g):
     main = code._main_routine
     order = [main] + [r for r in routines if r is not main] if main is not None else routines
     for (a, (p, v)), r in zip(frames, order):
-        need_p = sum(own_type_size(comp, t) for t in r.params.values())
+        need_p = len(r.params)            # every argument arrives as one cell: a value or a reference (record, array)
         need_v = sum(own_type_size(comp, t) for t in r.local_vars.values())
         if (p, v) != (need_p, need_v):
             out['problems'].append(('frame-declaration-differs-from-storage', r.name, (p, v), (need_p, need_v)))
@@ -209,6 +209,7 @@ def task(t):
 
 
 STRESS = [
+    'TYPE pt\n  x AS INTEGER\n  y AS LONG\nEND TYPE\nDIM q AS pt\nDIM a(3) AS LONG\nCALL f(a(), q, 3)\nEND\nSUB f(a() AS LONG, q AS pt, m%)\n  PRINT a(1); q.y; m%\nEND SUB\n',
     'PRINT "' + ''.join(chr(c) for c in [0xe9, 0xdf, 0x2591, 0x2500, 0x3b1, 0xb1]) + '"\n',
     'x$ = ""\nPRINT x$; "a"; ""\n',
     'DATA ,,\nDATA "", x ,\nREAD a$, b$\n',
